@@ -116,7 +116,11 @@ func TestVerifC03(t *testing.T) {
 			cfg.WideObjStm = true
 			cfg.NoObjStm = false
 			if c.Index%8 == 2 {
+				// large xref streams (and tables, one in four)
 				cfg.ManyObjects = 800 + c.Rng.Intn(4000)
+				cfg.Version = gen.Versions[3+c.Index/8%6]
+				cfg.HumanReadable = false
+				cfg.Seekable = c.Index%16 == 10
 			}
 		case 3:
 			cfg.PadBytes = 1<<16 - c.Rng.Intn(3000)
